@@ -722,3 +722,92 @@ def fault_variants(rnd, s, info, next_id):
             g.op_destroy()
             out.append(c)
     return out, next_id
+
+
+# ------------------------------------------------------------------------------------------------
+# two sinks compressing at the same time (C08: "for any content" also means whatever another sink is doing)
+# ------------------------------------------------------------------------------------------------
+
+class Twin:
+    def __init__(self, sid, rnd, big):
+        self.id = sid
+        self.subs = {}
+        self.now0 = [2, 0]
+        size = rnd.choice([200000, 700000]) if not big else rnd.choice([3 << 20, 6 << 20])
+        for name in ("a", "b"):
+            s = Scenario(sid * 10 + (1 if name == "a" else 2), "app.log", "rot", 0, 0, 5, now=(2, 0))
+            s.nrec = 1
+            # different, compressible content per sink
+            line = (f"sink {name} line %d payload {rnd.random()}\n").encode()
+            body = b"".join(line.replace(b"%d", str(i).encode()) for i in range(size // len(line)))
+            s.payload[1] = b"r1:" + body
+            s.rday[1] = 1
+            s.plants.append({"name": "app.log", "bytes": s.payload[1] + b"\n", "mt": [1, 40], "recs": [1]})
+            s.planted_hist.append(1)
+            s.nrec = 2
+            s.payload[2] = b"r2:hello"
+            s.rday[2] = 2
+            s.ops = [{"op": "ctor"}, {"op": "send", "rec": 2}, {"op": "destroy"}]
+            s.tags.add("twin-sinks")
+            self.subs[name] = s
+
+    def to_json(self, root):
+        plants = []
+        for name, s in self.subs.items():
+            for p in s.plants:
+                plants.append({"sub": name, "name": p["name"], "b64": b64(p["bytes"]), "mt": ms_of(*p["mt"])})
+        return {"id": self.id, "twin": True, "root": str(root), "subs": list(self.subs), "file": "app.log", "L": 0, "N": 0, "opts": 5,
+                "now": ms_of(*self.now0), "plants": plants, "b64": b64(self.subs["a"].payload[2])}
+
+
+def execute_twins(bdir, twins, work, tag, timeout=900):
+    work = Path(work)
+    work.mkdir(parents=True, exist_ok=True)
+    inp = work / f"{tag}.scn"
+    with open(inp, "w") as f:
+        for t in twins:
+            f.write(json.dumps(t.to_json(work / f"{tag}.d" / f"t{t.id}"), separators=(",", ":")) + "\n")
+    outp = work / f"{tag}.raw"
+    with open(outp, "wb") as out:
+        p = subprocess.run([str(bdir / "drv_rotation"), str(inp)], stdout=out, stderr=subprocess.PIPE, timeout=timeout,
+                           env={"LC_ALL": "C.UTF-8", "TZ": "UTC", "PATH": "/usr/bin:/bin"})
+    if p.returncode != 0:
+        raise C.ToolFailure(f"drv_rotation (twin) exited {p.returncode}: {p.stderr[-1500:]!r}")
+    groups = []
+    with open(outp, "rb") as f:
+        for line in f:
+            if not line.strip():
+                continue
+            e = json.loads(line)
+            if e["e"] == "Reset":
+                groups.append([])
+            groups[-1].append(e)
+    inp.unlink()
+    outp.unlink()
+    subprocess.run(["rm", "-rf", str(work / f"{tag}.d")])
+    out = []
+    for t, raw in zip(twins, groups):
+        for name, s in t.subs.items():
+            mine = []
+            opi = {"ctor": 0, "send": 1, "destroy": 2}
+            for e in raw:
+                if e["e"] == "Reset":
+                    mine.append({"e": "Reset", "scn": s.id, "list": e["lists"][name]})
+                elif e["e"] in ("Begin", "End"):
+                    if e["sub"] != name:
+                        continue
+                    if e["e"] == "Begin":
+                        mine.append({"e": "Begin", "op": e["op"], "i": opi[e["op"]]})
+                    else:
+                        mine.append({"e": "End", "calls": 0, "list": e["list"]})
+                elif e["e"] == "Sys":
+                    if not e["f"].startswith(name + "/"):
+                        continue
+                    e2 = dict(e)
+                    e2["f"] = e["f"][len(name) + 1:]
+                    if "t" in e:
+                        e2["t"] = e["t"][len(name) + 1:]
+                    mine.append(e2)
+            evs, info = translate(s, mine)
+            out.append((s, evs, info))
+    return out
